@@ -184,3 +184,20 @@ func verifC11Dead() {
 	vObserve("kind", int64(kind))
 	vWitness("c11dead-end")
 }
+
+// verifC11Dying: the request arrives while the self-terminating source is still running; the
+// source may end by itself before or after the core loop takes the request off the queue
+// (every order of the two): the caller gets exactly one reply either way.
+func verifC11Dying() {
+	vWatchdog(20)
+	sc := c11Start(1)
+	kind := []int{5, 9, 0}[vRange("request", 0, 2)] // CoupleErrToFB, StopTriggerCoupling, ConfigureTriggers
+	err, _, _ := c11Request(sc, kind, "0", 1)
+	_ = err // answered by the core loop, or refused because the source has gone: both are replies
+	vSettle(200)
+	var d, r2 bool
+	vCheck(sc.StopTriggerCoupling(&d, &r2) != nil, "once the source has ended a request is answered with an error")
+	vCheck(!sc.isSourceActive, "the server has noticed that the source ended")
+	vObserve("kind", int64(kind))
+	vWitness("c11dying-end")
+}
